@@ -91,13 +91,17 @@ impl AsyncFileSystem for AsyncOverlayFS {
         path: &str,
     ) -> VfsResult<Box<dyn Stream<Item = String> + Send + Unpin>> {
         let actual_path = if !path.is_empty() { &path[1..] } else { path };
-        if !self.read_path(path).await?.exists().await? {
+        let read_path = self.read_path(path).await?;
+        if !read_path.exists().await? {
             return Err(VfsErrorKind::FileNotFound.into());
+        }
+        if !read_path.is_dir().await? {
+            return Err(VfsErrorKind::Other("Not a directory".into()).into());
         }
         let mut entries = HashSet::<String>::new();
         for layer in &self.layers {
             let layer_path = layer.join(actual_path)?;
-            if layer_path.exists().await? {
+            if layer_path.is_dir().await? {
                 let mut path_stream = layer_path.read_dir().await?;
                 while let Some(path) = path_stream.next().await {
                     entries.insert(path.filename());
